@@ -45,7 +45,33 @@ def _c09_rule(op, args, impl):
     return any("," in a for a in args) and "_" not in args[:2]
 
 
+def _c02_rule(op, args, impl):
+    # non-trivial: at least 2 rows and 2 columns and a non-zero entry
+    a = args[0]
+    return ";" in a and "," in a and any(ch in a for ch in "123456789")
+
+
+_HNF_RULE = "every integer matrix of the small shapes (1x1 in [-3,3]; 2x2 in [-2,2]; 1x3, 3x1, 2x3, 3x2 in [-1,1]; thorough adds 3x3 and 4x2 in [-1,1] and wider ranges) through hnf_with_u and kernel; then seeded random matrices up to 10x8 with entries up to 2^66 (thorough 2^512): plain, forced rank-deficient (rows = small combinations of r others, shuffled), zero rows/columns, huge multiples; for each a second generating set of the same lattice (unimodular row operations, permutations, appended combinations and zero rows) and unions with random / equal / sub-lattices; tall matrices n > rank for the kernel. Non-trivial: >= 2 rows, >= 2 columns, not all zero; distinct = distinct (op,args)."
+
 INFO = {
+    "C02": {
+        "rule": _HNF_RULE,
+        "rulefn": _c02_rule,
+        "trusted": ["Vec<Vec<BigInt>> identified with List (List Int); toM maps rectangular lists to Mathlib matrices"],
+        "gaps": ["determinant() = lattice index for square full-rank H: certified on every explored case against an independent rational-elimination determinant (theorem outstanding)"],
+        "assumptions": ["rectangular input with n >= 1 rows and m >= 1 columns (the 0-row and 0-column cases are run through the correspondence only)"],
+        "level_text": "Theorems for every rectangular integer matrix about the Lean model of hnf.rs: termination, normal-form shape, equality of row lattices, independence (rank), and canonicity (same lattice => identical output, via a uniqueness theorem for Hermite normal forms). Model tied to hnf.rs by differential testing; every implementation output re-checked by an independent Lean oracle (shape predicate, rank by rational elimination, lattice membership by back-substitution, U*A product and det U).",
+        "level_note": "Trusted: Lean kernel + 3 standard axioms; Mathlib Matrix/det; BigInt identified with Int; correspondence generator coverage. The determinant-is-index clause is certified per explored case, not proved.",
+    },
+    "C03": {
+        "rule": _HNF_RULE,
+        "rulefn": _c02_rule,
+        "trusted": ["Vec<Vec<BigInt>> identified with List (List Int); toM maps rectangular lists to Mathlib matrices"],
+        "gaps": [],
+        "assumptions": ["rectangular input with n >= 1 rows and m >= 1 columns"],
+        "level_text": "Theorems for every rectangular integer matrix about the Lean model of hnf_with_u / hnf_with_ker / HNF::kernel: termination, det U a unit, U*A = [0;H], k = n - rank, and the first k rows of U form a saturated Z-basis of the left kernel. Model tied to hnf.rs by differential testing (H and k textually; U and kernel bases through the proved-sound certificate check U*A = [0;H], |det U| = 1, same lattice as the model's kernel).",
+        "level_note": "Trusted: Lean kernel + 3 standard axioms; Mathlib Matrix/det/nonsingular inverse; BigInt identified with Int; correspondence generator coverage.",
+    },
     "C09": {
         "rule": "all canonical integer polynomials with <= 3 coefficients in [-1,1] (thorough: [-2,2]) for every unary op and every ordered pair for every binary op; then seeded random polynomials up to degree 20 with coefficients up to 2^128 (integers) and 30-bit fractions (rationals), with dividend/divisor pairs that are arbitrary, exact multiples, multiples with one coefficient off by one, and monic divisors; ring-law flags evaluated on the implementation. Non-trivial: some operand has degree >= 1 and no operand is the zero polynomial; distinct = distinct (op,args).",
         "rulefn": _c09_rule,
